@@ -146,6 +146,7 @@ func init() {
 			return nil
 		},
 		"vNative": func(m *Machine, fr *frame, args []value) value { return false },
+		"vTempDir": func(m *Machine, fr *frame, args []value) value { return "" },
 		"vKnown": func(m *Machine, fr *frame, args []value) value {
 			return m.cfg.Known[strArg(args[0])]
 		},
